@@ -31,6 +31,8 @@ def capture():
 
 
 def backend_for(kind, store=None, directory=None):
+    if kind == 'local' and isinstance(store, membackend.DirStore):
+        return membackend.make_observed_local(store)
     if kind == 'local':
         from replicat.backends.local import Local
         return Local(directory)
